@@ -36,7 +36,7 @@ func init() { register(c18{}) }
 func (c18) ID() string { return "C18" }
 func (c18) Runs(tier string) int {
 	if tier == "quick" {
-		return 4000
+		return 8000
 	}
 	return 0
 }
